@@ -266,7 +266,13 @@ func (w *World) genBlock(r *Rand) *BlockArgs {
 		a.Rounds = append(a.Rounds, RoundSpec{Kind: "byz", Mut: "append-probe", Forced: true})
 	}
 	if r.Chance(w.weight("p.byz")) {
-		a.Rounds = append(a.Rounds, RoundSpec{Kind: "byz", Mut: pick(r, byzMutations), Forced: r.Chance(0.5)})
+		mut := pick(r, byzMutations)
+		if cfg.Profile == "admission" {
+			// the mutations that concern which transactions may sit in a block
+			mut = pick(r, []string{"with-relayer-msg", "second-block-msg", "two-msgs", "foreign-msg-tx", "non-proposer-relayer-tx", "block-msg-inside-relayer-tx", "block-msg-inside-relayer-tx",
+				"memo", "timeout-height", "bad-sig", "swap-first", "dup-first", "garbage-first", "too-many"})
+		}
+		a.Rounds = append(a.Rounds, RoundSpec{Kind: "byz", Mut: mut, Forced: r.Chance(0.5)})
 	}
 	if r.Chance(w.weight("p.junk")) {
 		rs := RoundSpec{Kind: "honest"}
@@ -372,6 +378,25 @@ func (w *World) tokensOf(st *ELState) []common.Address {
 	}
 	sort.Slice(out, func(i, j int) bool { return string(out[i][:]) < string(out[j][:]) })
 	return out
+}
+
+// genExitAllOps: every validator the contract knows unlocks all it has locked, of every token.
+func (w *World) genExitAllOps() []*ELOp {
+	st := w.elHeadState()
+	var ops []*ELOp
+	for _, v := range w.createdVals(st) {
+		ev := st.Vals[v]
+		if ev == nil {
+			continue
+		}
+		for _, t := range w.tokensOf(st) {
+			if l := ev.Locked[t.Hex()]; l != nil && l.Sign() > 0 {
+				ops = append(ops, &ELOp{Kind: "unlock", Val: v.Hex(), Token: t.Hex(), Amount: l.String(), Rcpt: w.Users[0].Hex(), Guards: true})
+			}
+		}
+	}
+	w.probe("every-validator-exits")
+	return ops
 }
 
 // genLockingOps draws operations a well-behaved execution layer could emit for the locking contract.
